@@ -40,3 +40,24 @@ Print Assumptions c13_prodos_bin_roundtrip.
 Theorem c13_prodos_bin_refused : forall dat addr, 65536 <= addr -> prodos_pack_bin dat addr = RErr 1.
 Proof. exact prodos_bin_addr_refused. Qed.
 Print Assumptions c13_prodos_bin_refused.
+
+(* ---------- Pascal text (src/fs/pascal/types.rs TextConverter) ---------- *)
+From A2 Require Import Pack.PascalText Pack.PascalTextProofs.
+
+(* text made of printable-ASCII lines each ending in a newline, once accepted by the encoder (indentation codes, CR line ends, 1024-byte
+   pages padded with NUL after their last CR), decodes to exactly the text, and the encoding is a whole number of pages.  The encoder
+   refuses (None) only when a page holds no line end, i.e. a line longer than a page. *)
+Theorem c13_pascal_text : forall t e, Forall dom t -> last t 0 = 10 -> pas_encode t = Some e ->
+  pas_decode e = t /\ (length e mod 1024 = 0)%nat.
+Proof. exact pas_roundtrip. Qed.
+Print Assumptions c13_pascal_text.
+
+(* pagination alone: it only inserts NUL bytes after a line end, whatever the page and count *)
+Theorem c13_pascal_paginate : forall ts page cnt ans' page', Forall tok_ok ts -> paginate (flat ts) page cnt = Some (ans', page') ->
+  exists ts', ans' = flat ts' /\ Forall tok_ok ts' /\ tsdec ts' = tsdec ts.
+Proof. exact paginate_tokens. Qed.
+Print Assumptions c13_pascal_paginate.
+
+Example c13_pascal_nonvacuous : let t := [72; 105; 10; 32; 32; 120; 10; 10] in
+  Forall dom t /\ last t 0 = 10 /\ exists e, pas_encode t = Some e.
+Proof. exact pas_example. Qed.
